@@ -393,6 +393,8 @@ class SuitTupleNamed(SuitObject):
                         # IndexError end of the list
                         break
             else:
+                if index >= len(value_list):
+                    raise ValueError(f"Incomplete list. Missing: {key}")
                 value.append(method.from_cbor(cls.ensure_cbor(value_list[index])))
                 index += 1
         return cls(value)
